@@ -589,16 +589,19 @@ impl Pc {
             Pc::Single(c, _) => c.open_file(p).map_err(|_| ()),
         }
     }
-    fn read(&mut self, api: &str, fid: u32, off: u64, len: usize) -> Result<Vec<u8>, ()> {
+    /// returns the bytes of the answer and, when the API hands out a CacheBuffer, that buffer (the
+    /// driver keeps it alive over later calls and logs its content again: "held" reads)
+    fn read(&mut self, api: &str, fid: u32, off: u64, len: usize) -> Result<(Vec<u8>, Option<CacheBuffer>), ()> {
+        let wrap = |b: CacheBuffer| (b.data().to_vec(), Some(b));
         match self {
             Pc::Lru(c) => match api {
-                "batch" => c.read_batch(vec![(fid, off, len)]).map(|v| v.into_iter().next().map(|b| b.data().to_vec()).unwrap_or_default()).map_err(|_| ()),
-                "rwp" => c.read_with_prefetch(fid, off, len, PAGE_SIZE).map(|b| b.data().to_vec()).map_err(|_| ()),
-                _ => c.read(fid, off, len).map(|b| b.data().to_vec()).map_err(|_| ()),
+                "batch" => c.read_batch(vec![(fid, off, len)]).map(|v| v.into_iter().next().map(wrap).unwrap_or_default()).map_err(|_| ()),
+                "rwp" => c.read_with_prefetch(fid, off, len, PAGE_SIZE).map(wrap).map_err(|_| ()),
+                _ => c.read(fid, off, len).map(wrap).map_err(|_| ()),
             },
             Pc::Single(c, buf) => match api {
-                "read_new" => c.read_new(fid, off, len).map(|b| b.data().to_vec()).map_err(|_| ()),
-                _ => c.read(fid, off, len, buf).map(|_| buf.data().to_vec()).map_err(|_| ()),
+                "read_new" => c.read_new(fid, off, len).map(wrap).map_err(|_| ()),
+                _ => c.read(fid, off, len, buf).map(|_| (buf.data().to_vec(), None)).map_err(|_| ()),
             },
         }
     }
@@ -708,6 +711,8 @@ fn drive_pc(a: &Args, tr: &mut Tracer, per_subject: &mut serde_json::Map<String,
                 let mut budget: usize = 30_000; // bytes of read results logged per run
                 let mut long_reads = 0;
                 let mut dead = false;
+                // a CacheBuffer kept alive over later calls: (buffer, file, offset, length, steps to keep it)
+                let mut held: Option<(CacheBuffer, usize, u64, usize, u32)> = None;
                 // two files, larger than the cache (and one tiny one now and then)
                 for fi in 0..2 {
                     let size = if fi == 0 { sizes[(run + cap_pages) % 3] } else { *rng.pick(&sizes) };
@@ -745,8 +750,11 @@ fn drive_pc(a: &Args, tr: &mut Tracer, per_subject: &mut serde_json::Map<String,
                                     *rng.pick(&[0usize, 1, 2, 7, 8, 33, 64, 200])
                                 };
                                 match pc.read(api, fid, off, len) {
-                                    Ok(d) => {
+                                    Ok((d, buf)) => {
                                         budget = budget.saturating_sub(d.len());
+                                        if let (Some(b), true, true) = (buf, held.is_none(), d.len() <= 200 && rng.chance(1, 3)) {
+                                            held = Some((b, f, off, len, 1 + rng.below(4) as u32));
+                                        }
                                         vec![json!({"op":"read","api":api,"f":f,"off":off,"len":len,"ok":true,"r":bytes_json(&d)})]
                                     }
                                     Err(()) => vec![json!({"op":"read","api":api,"f":f,"off":off,"len":len,"ok":false,"r":[]})],
@@ -764,6 +772,10 @@ fn drive_pc(a: &Args, tr: &mut Tracer, per_subject: &mut serde_json::Map<String,
                                 fh.seek(SeekFrom::Start(a0)).expect("seek");
                                 fh.write_all(&data).expect("rewrite");
                                 fh.sync_all().ok();
+                                // a buffer handed out before the rewrite legitimately keeps the old bytes: stop watching it
+                                if held.as_ref().map_or(false, |h| h.1 == f) {
+                                    held = None;
+                                }
                                 let mut evs = vec![json!({"op":"rewrite","f":f,"a":a0,"b":b0,"gen":gen})];
                                 match rng.below(10) {
                                     0..=5 => evs.push(json!({"op":"invalidate_range","f":f,"off":a0,"len":b0 - a0,"ok":pc.invalidate_range(fid, a0, (b0 - a0) as usize)})),
@@ -800,11 +812,20 @@ fn drive_pc(a: &Args, tr: &mut Tracer, per_subject: &mut serde_json::Map<String,
                             },
                             96 => vec![json!({"op":"close_file","f":f,"ok":pc.close_file(fid)})],
                             _ => match pc.read(api, fid, 0, 16) {
-                                Ok(d) => vec![json!({"op":"read","api":api,"f":f,"off":0,"len":16,"ok":true,"r":bytes_json(&d)})],
+                                Ok((d, _)) => vec![json!({"op":"read","api":api,"f":f,"off":0,"len":16,"ok":true,"r":bytes_json(&d)})],
                                 Err(()) => vec![json!({"op":"read","api":api,"f":f,"off":0,"len":16,"ok":false,"r":[]})],
                             },
                         }
                     });
+                    if let Some((b, hf, hoff, hlen, left)) = held.take() {
+                                if left == 0 || step + 1 >= steps {
+                                    // the buffer was handed out `left` calls ago; other pages were loaded and evicted meanwhile
+                                    tr.ev(json!({"op":"read","api":"held","f":hf,"off":hoff,"len":hlen,"ok":true,"r":bytes_json(b.data())}));
+                                    c.events += 1;
+                                } else {
+                                    held = Some((b, hf, hoff, hlen, left - 1));
+                                }
+                    }
                     match r {
                         Ok(evs) => {
                             for e in evs {
@@ -989,191 +1010,213 @@ fn drive(a: &Args) {
 
 // ================================================================ B2: TLC behaviours
 
-fn b2_subjects() -> Vec<String> {
-    lru_subjects().into_iter().filter(|s| s.starts_with("lru:") || s.ends_with("_1")).collect()
+/// single-shard subjects; the quick tier leaves out three whose code path equals another one's
+fn b2_subjects(a: &Args) -> Vec<String> {
+    let skip_quick = ["lru:cfg_perf_nocb", "lru:cb_sec", "clru:aff_1"];
+    lru_subjects().into_iter().filter(|s| s.starts_with("lru:") || s.ends_with("_1")).filter(|s| a.thorough() || !skip_quick.contains(&s.as_str())).collect()
+}
+
+/// per (thread, subject) counters of the B2 replay
+#[derive(Default, Clone)]
+struct B2Count {
+    executed: usize,
+    mismatching: usize,
+    written_refusal: usize,
+    written_other: usize,
+    evicting: usize,
+    mutating: usize,
 }
 
 /// a behaviour = {"cap":c,"steps":[{op,k,v,r,ev,st}],"drain":[[k,v]..]} with abstract keys "k1".. and values "v1"..
+/// The file is streamed: thread t handles the lines with index = t (mod threads) and executes each of
+/// them on every subject.
 fn replay(a: &Args) {
+    use std::io::BufRead;
     let input = a.input.clone().expect("--in");
-    let text = std::fs::read_to_string(&input).expect("read behaviours");
-    let behaviours: Vec<Value> = text.lines().filter(|l| !l.trim().is_empty()).map(|l| serde_json::from_str(l).expect("behaviour json")).collect();
-    let subs: Vec<String> = b2_subjects().into_iter().filter(|s| a.wants(s)).collect();
-    let chunks = 4usize;
-    let jobs: Vec<(usize, usize)> = (0..subs.len()).flat_map(|s| (0..chunks).map(move |c| (s, c))).collect();
-    let next = std::sync::atomic::AtomicUsize::new(0);
-    let results = Mutex::new(Vec::<(String, [usize; 6], Vec<String>)>::new());
+    let subs: Vec<String> = b2_subjects(a).into_iter().filter(|s| a.wants(s)).collect();
     let nthreads = a.get_u64("threads", 14) as usize;
+    let results = Mutex::new(Vec::<(Vec<B2Count>, usize, usize, usize, Vec<String>)>::new());
     std::thread::scope(|sc| {
-        for _ in 0..nthreads {
-            sc.spawn(|| loop {
-                let i = next.fetch_add(1, Ordering::SeqCst);
-                if i >= jobs.len() {
-                    break;
+        for t in 0..nthreads {
+            let (subs, input, results) = (&subs, &input, &results);
+            sc.spawn(move || {
+                let mut tr = Tracer::new(&a.out, &format!("lrub2-{t:02}"));
+                tr.max_events = 2500;
+                let mut rng = Rng::new(a.seed).derive("b2sample").derive(&t.to_string());
+                let mut counts = vec![B2Count::default(); subs.len()];
+                let f = std::fs::File::open(input).expect("open behaviours");
+                let mut lines = 0usize;
+                for (bi, line) in std::io::BufReader::new(f).lines().enumerate() {
+                    let line = line.expect("read behaviours");
+                    if line.trim().is_empty() {
+                        continue;
+                    }
+                    lines += 1;
+                    if bi % nthreads != t {
+                        continue;
+                    }
+                    let b: Value = serde_json::from_str(&line).expect("behaviour json");
+                    for (si, name) in subs.iter().enumerate() {
+                        replay_one(a, name, bi, &b, &mut counts[si], &mut tr, &mut rng);
+                    }
                 }
-                let (si, ci) = jobs[i];
-                let r = replay_subject(a, &subs[si], si * chunks + ci, &behaviours, ci, chunks);
-                results.lock().unwrap().push(r);
+                tr.close();
+                let files = tr.files.iter().map(|p| p.display().to_string()).collect();
+                results.lock().unwrap().push((counts, lines, tr.total_events, tr.runs, files));
             });
         }
     });
-    let mut per: std::collections::BTreeMap<String, [usize; 6]> = Default::default();
+    let mut total = vec![B2Count::default(); subs.len()];
+    let (mut behaviours, mut events, mut runs) = (0usize, 0usize, 0usize);
     let mut files = vec![];
-    for (name, n, f) in results.into_inner().unwrap() {
-        let e = per.entry(name).or_insert([0; 6]);
-        for i in 0..6 {
-            e[i] += n[i];
-        }
+    for (counts, lines, ev, ru, f) in results.into_inner().unwrap() {
+        behaviours = behaviours.max(lines);
+        events += ev;
+        runs += ru;
         files.extend(f);
+        for (i, c) in counts.iter().enumerate() {
+            total[i].executed += c.executed;
+            total[i].mismatching += c.mismatching;
+            total[i].written_refusal += c.written_refusal;
+            total[i].written_other += c.written_other;
+            total[i].evicting += c.evicting;
+            total[i].mutating += c.mutating;
+        }
     }
     let mut per_subject = serde_json::Map::new();
-    let (mut total_exec, mut events, mut runs) = (0, 0, 0);
-    for (name, n) in per {
-        per_subject.insert(name, json!({"behaviours": n[0], "mismatching": n[1], "mismatch_traces_written": n[2], "evicting_behaviours": n[4], "mutating_behaviours": n[5]}));
-        total_exec += n[0];
-        events += n[3];
+    let mut total_exec = 0;
+    for (i, name) in subs.iter().enumerate() {
+        let c = &total[i];
+        per_subject.insert(name.clone(), json!({"behaviours": c.executed, "mismatching": c.mismatching,
+            "mismatch_traces_written": c.written_refusal + c.written_other, "mismatch_traces_without_refusal": c.written_other,
+            "evicting_behaviours": c.evicting, "mutating_behaviours": c.mutating}));
+        total_exec += c.executed;
     }
-    for f in &files {
-        runs += std::fs::read_to_string(f).map(|t| t.lines().filter(|l| l.contains("\"op\":\"reset\"")).count()).unwrap_or(0);
-    }
-    write_summary(&a.out, &json!({"mode":"replay","behaviours":behaviours.len(),"executions":total_exec,"events":events,"runs":runs,
+    write_summary(&a.out, &json!({"mode":"replay","behaviours":behaviours,"executions":total_exec,"events":events,"runs":runs,
         "files":files,"subjects":per_subject}));
 }
 
-fn replay_subject(a: &Args, name: &str, idx: usize, behaviours: &[Value], chunk: usize, chunks: usize) -> (String, [usize; 6], Vec<String>) {
-    let mut tr = Tracer::new(&a.out, &format!("lrub2-{idx:03}"));
-    tr.max_events = 3000;
-    let mut rng = Rng::new(a.seed).derive("b2sample").derive(name).derive(&chunk.to_string());
+fn replay_one(a: &Args, name: &str, bi: usize, b: &Value, cnt: &mut B2Count, tr: &mut Tracer, rng: &mut Rng) {
     let sample_every = a.get_u64("sample", 2000);
-    let max_mismatch_traces = a.get_u64("max_mismatch", 40) as usize;
+    let max_mismatch_traces = a.get_u64("max_mismatch", 40) as usize; // per thread and subject
     let kid = |s: &Value| -> u32 { s.as_str().map(|x| x[1..].parse::<u32>().unwrap_or(1) - 1).unwrap_or(0) };
     let vid = |s: &Value| -> u32 { s.as_str().map(|x| x[1..].parse::<u32>().unwrap_or(1) * 10).unwrap_or(0) };
     let exp_pairs = |x: &Value| -> Value { Value::Array(x.as_array().map(|v| v.iter().map(|q| json!([kid(&q[0]), vid(&q[1])])).collect()).unwrap_or_default()) };
     let universe: Vec<u32> = (0..a.get_u64("keys", 4) as u32).collect();
-    let (mut executed, mut mism, mut written, mut evicting, mut mutating) = (0usize, 0usize, 0usize, 0usize, 0usize);
-    let mut written_other = 0usize;
-    for (bi, b) in behaviours.iter().enumerate() {
-        if bi % chunks != chunk {
-            continue;
+    let cap = b["cap"].as_u64().unwrap_or(1) as usize;
+    let steps = match b["steps"].as_array() {
+        Some(x) => x,
+        None => return,
+    };
+    let (mut s, meta) = match guard(|| make_lru(name, cap, a.seed)) {
+        Ok(Some(x)) => x,
+        _ => return,
+    };
+    let mut evs: Vec<Value> = vec![];
+    let mut differs = false;
+    let mut dead = false;
+    let mut evicted_any = false;
+    let mut refused_any = false;
+    let mut put_ok = false;
+    for st in steps {
+        let op = st["op"].as_str().unwrap_or("");
+        let (k, v) = (kid(&st["k"]), vid(&st["v"]));
+        let e = exec_lru(&mut s, op, k, v, &universe);
+        if e["op"] == "panic" {
+            dead = true;
+            differs = true;
+            evs.push(e);
+            break;
         }
-        let cap = b["cap"].as_u64().unwrap_or(1) as usize;
-        let steps = match b["steps"].as_array() {
-            Some(x) => x,
-            None => continue,
-        };
-        let (mut s, meta) = match guard(|| make_lru(name, cap, a.seed)) {
-            Ok(Some(x)) => x,
-            _ => break,
-        };
-        let mut evs: Vec<Value> = vec![];
-        let mut differs = false;
-        let mut dead = false;
-        let mut evicted_any = false;
-        let mut refused_any = false;
-        let mut put_ok = false;
-        for st in steps {
-            let op = st["op"].as_str().unwrap_or("");
-            let (k, v) = (kid(&st["k"]), vid(&st["v"]));
-            let e = exec_lru(&mut s, op, k, v, &universe);
+        // expected result and callback log computed by TLC (equality only)
+        if op != "clear" {
+            let exp_r: Value = match st["r"].as_array() {
+                Some(x) if !x.is_empty() => json!([vid(&x[0])]),
+                _ => json!([]),
+            };
+            if e["ok"] == json!(false) || e["r"] != exp_r {
+                differs = true;
+            }
+        }
+        if e["ok"] == json!(false) {
+            refused_any = true;
+        } else if op == "put" {
+            put_ok = true;
+        }
+        if meta.has_cb && e["ev"] != exp_pairs(&st["ev"]) {
+            differs = true;
+        }
+        if st["ev"].as_array().map_or(false, |x| !x.is_empty()) {
+            evicted_any = true;
+        }
+        evs.push(e);
+        // expected content after the step, computed by TLC
+        let p = exec_lru(&mut s, "probe", 0, 0, &universe);
+        if p["op"] == "panic" {
+            dead = true;
+            differs = true;
+            evs.push(p);
+            break;
+        }
+        let want: Vec<u32> = st["st"].as_array().map(|x| x.iter().map(|q| kid(&q[0])).collect()).unwrap_or_default();
+        let same_keys = p["c"].as_array().map_or(false, |c| c.iter().all(|q| q[1].as_bool().unwrap_or(false) == want.contains(&(q[0].as_u64().unwrap_or(0) as u32))));
+        if !same_keys || p["len"].as_u64().unwrap_or(999) as usize != want.len() {
+            differs = true;
+        }
+        evs.push(p);
+    }
+    if !dead {
+        // drain: cap fresh keys push the whole content through the callback, least recently used first
+        let mut seen: Vec<Value> = vec![];
+        for i in 0..cap as u32 {
+            let e = exec_lru(&mut s, "put", 100 + i, 5, &universe);
             if e["op"] == "panic" {
                 dead = true;
                 differs = true;
                 evs.push(e);
                 break;
             }
-            // expected result and callback log computed by TLC (equality only)
-            if op != "clear" {
-                let exp_r: Value = match st["r"].as_array() {
-                    Some(x) if !x.is_empty() => json!([vid(&x[0])]),
-                    _ => json!([]),
-                };
-                if e["ok"] == json!(false) || e["r"] != exp_r {
-                    differs = true;
-                }
+            if let Some(x) = e["ev"].as_array() {
+                seen.extend(x.iter().cloned());
             }
             if e["ok"] == json!(false) {
-                refused_any = true;
-            } else if op == "put" {
-                put_ok = true;
-            }
-            if meta.has_cb && e["ev"] != exp_pairs(&st["ev"]) {
                 differs = true;
-            }
-            if st["ev"].as_array().map_or(false, |x| !x.is_empty()) {
-                evicted_any = true;
+                refused_any = true;
             }
             evs.push(e);
-            // expected content after the step, computed by TLC
-            let p = exec_lru(&mut s, "probe", 0, 0, &universe);
-            if p["op"] == "panic" {
-                dead = true;
-                differs = true;
-                evs.push(p);
-                break;
-            }
-            let want: Vec<u32> = st["st"].as_array().map(|x| x.iter().map(|q| kid(&q[0])).collect()).unwrap_or_default();
-            let same_keys = p["c"].as_array().map_or(false, |c| c.iter().all(|q| q[1].as_bool().unwrap_or(false) == want.contains(&(q[0].as_u64().unwrap_or(0) as u32))));
-            if !same_keys || p["len"].as_u64().unwrap_or(999) as usize != want.len() {
-                differs = true;
-            }
-            evs.push(p);
         }
-        if !dead {
-            // drain: cap fresh keys push the whole content through the callback, least recently used first
-            let mut seen: Vec<Value> = vec![];
-            for i in 0..cap as u32 {
-                let e = exec_lru(&mut s, "put", 100 + i, 5, &universe);
-                if e["op"] == "panic" {
-                    dead = true;
-                    differs = true;
-                    evs.push(e);
-                    break;
-                }
-                if let Some(x) = e["ev"].as_array() {
-                    seen.extend(x.iter().cloned());
-                }
-                if e["ok"] == json!(false) {
-                    differs = true;
-                    refused_any = true;
-                }
-                evs.push(e);
-            }
-            if meta.has_cb && Value::Array(seen) != exp_pairs(&b["drain"]) {
-                differs = true;
-            }
-        }
-        if dead {
-            std::mem::forget(s);
-        }
-        executed += 1;
-        if evicted_any {
-            evicting += 1;
-        }
-        if put_ok {
-            mutating += 1;
-        }
-        let sampled = rng.below(sample_every) == 0;
-        if differs {
-            mism += 1;
-        }
-        // every behaviour that differs WITHOUT a refused put goes to the judge (up to 400); those that
-        // involve a refusal (accepted by the contract, counted) are capped separately
-        let write_it = differs && if refused_any { written < max_mismatch_traces } else { written_other < 400 };
-        if write_it || sampled {
-            if differs && refused_any {
-                written += 1;
-            } else if differs {
-                written_other += 1;
-            }
-            lru_reset(&mut tr, name, cap, Some(&meta), json!({"behaviour": bi, "b2": true, "differs": differs, "universe": universe.len()}));
-            for e in evs {
-                tr.ev(e);
-            }
+        if meta.has_cb && Value::Array(seen) != exp_pairs(&b["drain"]) {
+            differs = true;
         }
     }
-    tr.close();
-    let files = tr.files.iter().map(|p| p.display().to_string()).collect();
-    (name.to_string(), [executed, mism, written + written_other, tr.total_events, evicting, mutating], files)
+    if dead {
+        std::mem::forget(s);
+    }
+    cnt.executed += 1;
+    if evicted_any {
+        cnt.evicting += 1;
+    }
+    if put_ok {
+        cnt.mutating += 1;
+    }
+    if differs {
+        cnt.mismatching += 1;
+    }
+    let sampled = rng.below(sample_every) == 0;
+    // every behaviour that differs WITHOUT a refused put goes to the judge (up to 100 per thread and subject);
+    // those that involve a refusal (accepted by the contract, counted) are capped separately
+    let write_it = differs && if refused_any { cnt.written_refusal < max_mismatch_traces } else { cnt.written_other < 100 };
+    if write_it || sampled {
+        if differs && refused_any {
+            cnt.written_refusal += 1;
+        } else if differs {
+            cnt.written_other += 1;
+        }
+        lru_reset(tr, name, cap, Some(&meta), json!({"behaviour": bi, "b2": true, "differs": differs, "universe": universe.len()}));
+        for e in evs {
+            tr.ev(e);
+        }
+    }
 }
 
 fn main() {
